@@ -79,7 +79,8 @@ func ParseOne(reader *bufio.Reader) (*ChangelogEntry, error) {
 		if err != nil {
 			return nil, err
 		}
-		if line == "\n" {
+		if trim(line) == "" {
+			/* blank lines between entries may hold blanks */
 			continue
 		}
 		if strings.HasPrefix(line, "#") {
